@@ -691,6 +691,11 @@ class Subject:
                         self.violate("C20", "rejected-call-changed-state", call=call, fields=diff_keys(pre, post))
                     self.res.probes[f"invalid {call} in phase {nc} rejected without effect"] += 1
                 return out
+            if toy and valid is False and "C20" in self.props:
+                # an out-of-order call must be answered with the sequencing error, not with some other failure
+                # (no TOY instruction can fault at run time, and this call must not execute one anyway)
+                self.violate("C20", "invalid-call-raised-another-error", expected="StepSequenceError", got=out[1], call=call, next_cycle=nc)
+                return out
             # a run-time fault: nothing is asserted about the object afterwards (the UI forces a reset)
             self.faulted = True
             self.res.faults["F-instr (run-time fault inside the driver)"] += 1
